@@ -4,6 +4,7 @@ from sx import spec as SP, obs as O, term as T
 from . import common as C
 
 ID = 'C08'
+AGEABLE = True        # a quarter of the configurations build their operands as objects with a past (props/common.py)
 ENCODED = ['functions._function_over_two_vars', 'functions._get_sizing', 'functions.add', 'functions.sub', 'functions.mul', 'Fxp._convert_op_input_value',
            'Fxp.__add__', 'Fxp.__radd__', 'Fxp.__sub__', 'Fxp.__rsub__', 'Fxp.__mul__', 'Fxp.__rmul__', 'Fxp.__neg__', 'Fxp.__pos__', 'Fxp.__abs__',
            'Fxp.set_val', 'Fxp.__init__', 'Fxp.set_best_sizes']
